@@ -216,6 +216,23 @@ class Config:
         hook = getattr(self.top, 'extra', {}).get('await_hook')
         if hook:
             return hook(path, v, node)
+        inv = getattr(self.top, 'extra', {}).get('await_inv')
+        if inv is not None and path.func_stack and self.is_target(path.func_stack[-1]):
+            # cooperative scheduling (A1): at a yield point other tasks may run any operation that
+            # preserves the shared invariant.  Guarantee: it holds when we yield; rely: it holds
+            # (and nothing else is known about the shared state) when we resume.
+            env = dict(path.entry_env)
+            for fr in reversed(path.scope):
+                env.update(path.obj(fr).vars)
+            env['old'] = OldView(path.entry_env, 'old')
+            for i, cl in enumerate(self.clauses(path, inv, env)):
+                path.oblige(self.obl_name(path, 'await-guarantee', f'L{node.lineno}#{i}'), 'await-guarantee', cl)
+            self.havoc_modifies(path, self.top, path.entry_env, 'await')
+            path.abstraction_used = True
+            for cl in self.clauses(path, inv, env):
+                path.assume(cl)
+            henv = {k: x for k, x in env.items() if k != 'old'}
+            path.headstate = {'env': henv, 'ghost': path.ghost, 'heap': {oid: o.clone() for oid, o in path.heap.items()}, 'lazy': path.lazy, 'await': node.lineno}
         return v
 
     def concretize_length(self, path, b):
@@ -311,15 +328,20 @@ class Config:
             mdl = self.reg.models[t.elem]
             cls = resolve_class(t.elem)
             cols = {}
+            evcols = []
             for fname, ft in mdl.fields.items():
                 default = None
                 if isinstance(ft, tuple):
                     ft, default = ft
+                if isinstance(ft, C.Event) or ft is C.Event:
+                    evcols.append(fname)
+                    ft = C.Bool
+                    default = False if default is None else default
                 k = kind_of_T(ft)
                 arr = z3.Const(path.fresh_name(f'{hint}.{fname}'), z3.ArraySort(z3.IntSort(), sort_of(k)))
                 cols[fname] = (arr, k, default)
             dom = z3.Const(path.fresh_name(f'{hint}.dom'), z3.ArraySort(z3.IntSort(), z3.BoolSort()))
-            return path.alloc(MObj(dom, cols, cls, mdl, t.default_factory))
+            return path.alloc(MObj(dom, cols, cls, mdl, t.default_factory, evcols))
         if isinstance(t, C.Event):
             return path.alloc(Obj(asyncio.Event, {'_flag': path.fresh_sym('bool', hint + '._flag')}))
         raise Unsupported(f'fresh value of type {t!r}')
@@ -399,7 +421,7 @@ class Config:
                 ho = path.obj(o)
                 if isinstance(ho, Obj):
                     v = ho.fields.get(node.attr)
-                    if isinstance(v, Ref) and not isinstance(path.obj(v), Obj):
+                    if isinstance(v, Ref) and (not isinstance(path.obj(v), Obj) or path.obj(v).cls is asyncio.Event):
                         out.add((v.oid, '*'))  # container content
             return
         if isinstance(node, ast.Name):
@@ -491,45 +513,19 @@ class Config:
         return args
 
     def clauses(self, path, fn, env):
-        """truth values of the clauses of fn, evaluated *progressively*: clause k
-        is evaluated knowing clauses < k (they are conjuncts: for an assumption
-        this is the same formula, for obligations it is sequential conjunction).
-        The temporary hypotheses are removed again before returning."""
+        """truth values of the clauses of fn, evaluated *progressively*: inside a list display
+        clause k is evaluated knowing clauses < k (they are conjuncts: for an assumption this is
+        the same formula, for obligations it is sequential conjunction).  The temporary
+        hypotheses are removed again before returning."""
         if fn is None:
             return []
-        f = self.spec_func(fn)
-        node = f.node
-        elts = None
-        if isinstance(node, ast.Lambda) and isinstance(node.body, (ast.List, ast.Tuple)):
-            elts = node.body.elts
-        elif not isinstance(node, ast.Lambda) and len(node.body) >= 1 and isinstance(node.body[-1], ast.Return) and isinstance(node.body[-1].value, (ast.List, ast.Tuple)) and all(not isinstance(x, (ast.If, ast.For, ast.While, ast.Return)) for x in node.body[:-1]):
-            elts = node.body[-1].value.elts
-        if elts is None:
-            return self.as_clause_list(path, self.spec_eval(path, fn, env))
-        args = self._clause_args(path, f, env)
-        envb = path.bind_args(f, args, {})
-        frame = path.alloc(Frame(envb))
-        saved_scope = path.scope
-        path.scope = [frame] + list(f.closure or [])
-        path.func_stack.append(f)
-        path.spec_mode += 1
-        temps = []
-        out = []
+        saved = path.prog_temps
+        path.prog_temps = []
         try:
-            if not isinstance(node, ast.Lambda):
-                path.exec_block(node.body[:-1])
-            for e in elts:
-                v = path.eval(e)
-                for t in self.as_clause_list(path, v):
-                    out.append(t)
-                    if not isinstance(t, bool):
-                        zt = zbool(t)
-                        path.pc.append(zt)
-                        temps.append(zt)
+            out = self.as_clause_list(path, self.spec_eval(path, fn, env))
         finally:
-            path.spec_mode -= 1
-            path.func_stack.pop()
-            path.scope = saved_scope
+            temps = path.prog_temps
+            path.prog_temps = saved
             if temps:
                 ids = {id(t) for t in temps}
                 path.pc = [p for p in path.pc if id(p) not in ids]
